@@ -2,5 +2,6 @@
 package props
 
 import (
+	_ "verif/harness/c03"
 	_ "verif/harness/c09"
 )
